@@ -29,6 +29,11 @@ def main():
         print('/repo dirty, refusing'); sys.exit(2)
     out = []
     old = {}
+    # the evidence files describe the unchanged tree: keep them out of the way while seeds are applied
+    import shutil, tempfile
+    ev = os.path.join(V, 'evidence')
+    bak = tempfile.mkdtemp(prefix='evidence_bak_', dir='/var/tmp')
+    shutil.copytree(ev, os.path.join(bak, 'evidence'))
     rp = os.path.join(S, 'RESULTS.json')
     if os.path.exists(rp) and sys.argv[1:]:
         old = {r['seed']: r for r in json.load(open(rp))}
@@ -58,6 +63,7 @@ def main():
         finally:
             sh('git -C /repo checkout -- . ; git -C /repo reset -q')
         out.append(rec); print(seed, rec['result'], rec.get('oracle_key'), rec.get('summary_line'))
+    shutil.rmtree(ev); shutil.copytree(os.path.join(bak, 'evidence'), ev); shutil.rmtree(bak)
     for r in out:
         old[r['seed']] = r
     allr = [old[k] for k in sorted(old)]
